@@ -19,6 +19,7 @@ mod c02;
 mod c03;
 mod c05;
 mod c06;
+mod c07;
 mod c16;
 mod c17;
 mod c19;
@@ -81,6 +82,7 @@ fn main() {
         "c03" => c03::run(&args, &mut report),
         "c05" => c05::run(&args, &mut report),
         "c06" => c06::run(&args, &mut report),
+        "c07" => c07::run(&args, &mut report),
         "c16" => c16::run(&args, &mut report),
         "c17" => c17::run(&args, &mut report),
         "c19" => c19::run(&args, &mut report),
